@@ -98,14 +98,14 @@ func PackValues(format string, values []rt.Value, budget uint64) (string, uint64
 			_ = p.align(0) &&
 				p.mustGetOptSize() &&
 				p.nextStringValue() &&
-				p.writeStr(p.optSize)
+				p.writeFixedStr(p.optSize)
 		case 'z':
 			if p.align(0) && p.nextStringValue() {
 				if strings.IndexByte(p.strVal, 0) >= 0 {
 					p.err = errStringContainsZeros
 				} else {
 
-					_ = p.writeStr(0) &&
+					_ = p.writeStr() &&
 						p.writeByte(0)
 				}
 			}
@@ -114,7 +114,7 @@ func PackValues(format string, values []rt.Value, budget uint64) (string, uint64
 				p.align(p.optSize) &&
 				p.nextStringValue() &&
 				p.packUint() &&
-				p.writeStr(0)
+				p.writeStr()
 			if p.err == errOutOfBounds {
 				p.err = errStringDoesNotFit
 			}
@@ -230,23 +230,24 @@ func (p *packer) consumeBudget(amount uint64) bool {
 	return true
 }
 
-func (p *packer) writeStr(maxLen uint) bool {
-	diff := 0
-	if maxLen > 0 {
-		diff = int(maxLen) - len(p.strVal)
-	}
-	if diff < 0 {
-		p.err = errStringLongerThanFormat
-		return false
-	}
+// writeStr writes the whole current string value.
+func (p *packer) writeStr() bool {
 	if !p.consumeBudget(uint64(len(p.strVal))) {
 		return false
 	}
 	p.w.Write([]byte(p.strVal))
-	if diff > 0 {
-		return p.fill(uint(diff), 0)
-	}
 	return true
+}
+
+// writeFixedStr writes the current string value as exactly n bytes, padding it
+// with zeros if needed.  It is an error for the string to be longer than n
+// bytes (including when n is 0).
+func (p *packer) writeFixedStr(n uint) bool {
+	if uint(len(p.strVal)) > n {
+		p.err = errStringLongerThanFormat
+		return false
+	}
+	return p.writeStr() && p.fill(n-uint(len(p.strVal)), 0)
 }
 
 func (p *packer) align(n uint) bool {
